@@ -27,12 +27,13 @@ PadOf(z) == {[kind |-> "pad", z |-> z, v |-> v, a |-> a, b |-> b] : v \in {1, 3}
 NumOf(z) == {[kind |-> "num", z |-> z, v |-> v] : v \in 1..4}
 LabelOf(z) == {[kind |-> "label", z |-> z, v |-> v, a |-> a, b |-> b] : v \in 1..4, a \in DOMAIN DigitRuns, b \in DOMAIN Suffixes}
 BadLongOf(z) == {[kind |-> "badlong", z |-> z, v |-> v, a |-> a] : v \in {1, 2, 3}, a \in DOMAIN LongTails}
+AltNameOf(z) == IF z = 13 THEN {[kind |-> "altname", z |-> 0, v |-> v] : v \in DOMAIN AltNames} ELSE {}
 NumJunkOf(z) == {[kind |-> "numjunk", z |-> z, v |-> v] : v \in 1..5}
 PrefixedOf(z) == {[kind |-> "prefixed", z |-> z, v |-> v, a |-> a, b |-> b] : v \in {1, 3}, a \in {x \in DOMAIN LeadJunk : (x + z) % 3 = 0}, b \in DOMAIN JunkTails}
 BadOf(c) == {[kind |-> "bad", c |-> c, v |-> v, a |-> a, b |-> b] : v \in {1, 2, 3}, a \in {0, 1, 2}, b \in {1, 2, 3}}
 Keys == NumZ \cup {1000 + 27 * c[1] + c[2] : c \in {x \in BadCodes : (x[1] * 27 + x[2]) % BadStride = 0}}
 SpOfKey(k) == IF k >= 1000 THEN BadOf(<<(k - 1000) \div 27, (k - 1000) % 27>>)
-              ELSE IF k \in ElementZ THEN SymOf(k) \cup PadOf(k) \cup NumOf(k) \cup LabelOf(k) \cup BadLongOf(k) \cup PrefixedOf(k) \cup NumJunkOf(k) ELSE NumOf(k)
+              ELSE IF k \in ElementZ THEN SymOf(k) \cup PadOf(k) \cup NumOf(k) \cup LabelOf(k) \cup BadLongOf(k) \cup PrefixedOf(k) \cup NumJunkOf(k) \cup AltNameOf(k) ELSE NumOf(k)
 SymSp == UNION {SymOf(z) : z \in ElementZ}
 LabelCore == UNION {{[kind |-> "label", z |-> z, v |-> v, a |-> 1, b |-> b] : v \in 1..4, b \in {1, 2}} : z \in ElementZ}
 
